@@ -48,6 +48,7 @@ def run(prog, tier, extra=None):
     res = Result("C02", "other")
     R1 = res.rule("C02.no-wrap", "amount-derived u64 values are not added/multiplied/summed with wrap-around or overflow panic before validation", floor=5)
     R2 = res.rule("C02.inflation-gate", "Transaction::validate accepts a non-privileged transaction only through total_out <= total_in", floor=1)
+    R3 = res.rule("C02.payout-exact", "Block::validate accepts a block only with exactly the fee transaction its consensus values call for", floor=3)
     cg = CallGraph(prog, [u for u in prog.units if u.crate == "saito_core"])
     roots = [TX + "generate", CORE + "consensus::block::Block::generate"]
     for r in roots:
@@ -138,6 +139,100 @@ def run(prog, tier, extra=None):
                             tv.loc(path[-1]), {"path": describe_path(tv, path)}))
         else:
             res.sample({"rule": R2, "comparison": ["%s: total_out %s total_in" % (tv.loc(c["bb"]), c["op"]) for c in cmps], "states": ex.states, "verdict": "must-pass holds"})
+    # R3: the fee transaction is the one place where outputs are created without inputs. generate_consensus_values derives the
+    # expected one (cv.fee_transaction); Block::validate must (i) compare it whenever one is expected - a block that omits it
+    # loses the payout -, (ii) compare it whenever the block carries one - an unexpected Fee transaction mints tokens -, and
+    # (iii) bound the number of Fee transactions in the block (only one index is compared)
+    from ._blockvalidate import BlockValidate
+    from ..expr import strip
+    bvv = BlockValidate(prog)
+    vb, vch = bvv.body, bvv.ch
+
+    def is_cv(e, f):
+        return has_field(e, "ConsensusValues", f)
+    eqc = gate.compare_edges(vb, vch, lambda a, b: is_cv(a, "fee_transaction") and has_field(b, "block::Block", "transactions"))
+    none_edges, ft0_edges, bounded_edges = set(), set(), set()
+    for bb, blk in enumerate(vb.blocks):
+        t = blk["t"]
+        if t["k"] != "switch":
+            continue
+        e0 = vch.origin(t["discr"])
+        e, neg = gate.unwrap_not(e0)
+        if e[0] == "discr" and is_cv(e[1], "fee_transaction") and strip(e[1])[0] == "field" and strip(e[1])[3] == "fee_transaction":
+            none_edges |= gate.variant_edges(vb, bb, 0)
+        elif e[0] == "call" and e[1] in ("std::option::Option::is_some", "std::option::Option::is_none") and e[2] and is_cv(e[2][0], "fee_transaction"):
+            sw = gate.bool_switch_edges(vb, vch, lambda x: x is e)
+            want_true = e[1].endswith("is_none")
+            zero = [tgt for v, tgt in t["targets"] if v == 0]
+            one = [tgt for v, tgt in t["targets"] if v == 1]
+            other = t["otherwise"]
+            false_t = zero if zero else ([other] if one else [])
+            true_t = one if one else ([other] if zero else [])
+            if neg:
+                false_t, true_t = true_t, false_t
+            for tgt in (true_t if want_true else false_t):
+                none_edges.add((bb, tgt))
+    def ftnum(a, b):
+        return is_cv(a, "ft_num") and b[0] == "const"
+    for c in gate.order_edges(vb, vch, ftnum):
+        k = c["b"][1]
+        # edges on which ft_num == 0 / ft_num <= 1
+        if c["op"] == "Gt":
+            if k == 0:
+                ft0_edges |= c["false_edges"]
+            if k <= 1:
+                bounded_edges |= c["false_edges"]
+        elif c["op"] == "Ge":
+            if k == 1:
+                ft0_edges |= c["false_edges"]
+            if k <= 2:
+                bounded_edges |= c["false_edges"]
+        elif c["op"] == "Lt":
+            if k == 1:
+                ft0_edges |= c["true_edges"]
+            if k <= 2:
+                bounded_edges |= c["true_edges"]
+        elif c["op"] == "Le":
+            if k == 0:
+                ft0_edges |= c["true_edges"]
+            if k <= 1:
+                bounded_edges |= c["true_edges"]
+    for bb, blk in enumerate(vb.blocks):
+        t = blk["t"]
+        if t["k"] != "switch" or vb.tyix(t["dty"])["s"] != "bool":
+            continue
+        e, neg = gate.unwrap_not(vch.origin(t["discr"]))
+        if e[0] == "bin" and e[1] in ("Eq", "Ne") and ((is_cv(e[2], "ft_num") and e[3][0] == "const") or (is_cv(e[3], "ft_num") and e[2][0] == "const")):
+            k = e[3][1] if e[3][0] == "const" else e[2][1]
+            is_eq = (e[1] == "Eq") != neg
+            zero = [tgt for v, tgt in t["targets"] if v == 0]
+            one = [tgt for v, tgt in t["targets"] if v == 1]
+            other = t["otherwise"]
+            false_t = zero if zero else ([other] if one else [])
+            true_t = one if one else ([other] if zero else [])
+            eq_t = true_t if is_eq else false_t
+            for tgt in eq_t:
+                if k == 0:
+                    ft0_edges.add((bb, tgt))
+                if k <= 1:
+                    bounded_edges.add((bb, tgt))
+    if not eqc["sites"]:
+        res.instance(R3)
+        res.add(Finding(R3, "C02.payout-exact|no-comparison", "Block::validate does not compare the block's fee transaction with the one derived by generate_consensus_values", vb.loc(0)))
+    else:
+        fixed = {"validate_against_utxo": True}
+        for key, extra_good, what in (
+                ("expected-not-compared", none_edges, "a fee transaction is expected (cv.fee_transaction is Some) but the block's is never compared with it: a block that "
+                                                      "omits the payout is accepted and the paid-out value exists nowhere"),
+                ("carried-not-compared", ft0_edges, "the block carries a Fee transaction (cv.ft_num > 0) that is never compared with the expected one: outputs created "
+                                                    "from nothing are accepted"),
+                ("count-unbounded", bounded_edges | ft0_edges, "the number of Fee transactions in the block is not bounded although only one is compared")):
+            res.instance(R3)
+            path, states = bvv.must_pass(eqc["eq"] | extra_good if key != "count-unbounded" else extra_good, fixed_fields=fixed)
+            if path:
+                res.add(Finding(R3, "C02.payout-exact|%s" % key, "Block::validate returns true on a path where %s" % what, vb.loc(path[-1]), {"path": bvv.describe(path)}))
+            else:
+                res.sample({"rule": R3, "clause": key, "comparison": [vb.loc(x) for x in eqc["sites"]], "states": states, "verdict": "must-pass holds"})
     # supply is also inflated by an output spent twice inside one transaction or block, and by rebroadcast fees booked on the
     # wrong arm: decided by the C01 / C13 rules, cross-listed here
     from ._include import include
